@@ -24,7 +24,7 @@ def describe(tier):
                 "point and the validity check only (the setter writes a ContextVar read by the harness evaluators; expressions with <= 3 leaves also with the library's "
                 "ContentEvaluationResult-based evaluators and a setter that stores the dumped result for the injected provider), also for the two-part forms. "
                 "The validity check is also run on one valid and one invalid expression with 6 and 8 (thorough: 9) distinct requirement keys "
-                "(up to 3^9*2 content evaluation results). Non-trivial = expressions with >= 1 O/X operator.",
+                "(up to 3^9*2 content evaluation results). Non-trivial = expressions with >= 1 O/X operator. Also {len(SPELLING_EXPRS)} expressions that contain several SPELLINGS of one key number ([1], [01], [001]) - different keys for every evaluator - through the harness and the ContentEvaluationResult-based evaluators.",
         "bounds": {"sizes": BOUNDS[tier]},
         "exhaustive": True,
         "assumptions": ["I6: is_valid_expression is exercised with AHB expressions (its documented input)"],
@@ -43,6 +43,10 @@ def plan(tier, seed):
     for m in (6, 8) if tier == "quick" else (6, 8, 9):
         for valid in (True, False):
             items.append({"many_keys": m, "valid": valid, "seed": seed})
+    # several SPELLINGS of one key number in one expression ([1] and [01] are different keys for every evaluator: the key is the
+    # token text) - through the harness evaluators and the library's ContentEvaluationResult-based ones
+    for e in range(len(SPELLING_EXPRS)):
+        items.append({"spellings": e, "seed": seed})
     if tier == "quick":
         # one size beyond the full bound, distinct keys: transformer entry point under all RC assignments + the validity check
         for p in range(128):
@@ -52,6 +56,10 @@ def plan(tier, seed):
         for p in range(parts):
             items.append({"n": n, "lab": lab, "part": p, "parts": parts, "seed": seed})
     return items
+
+
+SPELLING_EXPRS = ["[1] U [01]", "[1] O [01] U [501]", "([1] U [01]) O [501]", "[01] X [0501]", "[1][901] U [01][0901]", "[001] U [1] O [01] X [501]",
+                  "[2005] U [02005] U [0501]", "[0501] O [1] U [01]"]
 
 
 def worker_init():
@@ -207,6 +215,18 @@ def run_item(item):
         for v in vs:
             r.violation(v["kind"], v["case"], v["expected"], v["observed"], v["msg"])
         r.sample({"many_keys": item["many_keys"], "valid": item["valid"], "content_evaluation_results": n})
+        return r
+    if "spellings" in item:
+        expr = SPELLING_EXPRS[item["spellings"]]
+        for vs, n in (check_expr(expr, item["seed"]), check_expr_cer_mode(expr)):
+            r.evaluations += n
+            r.states += n
+            r.transitions += n
+            r.nontrivial += 1
+            for v in vs:
+                r.violation(v["kind"], v["case"], v["expected"], v["observed"], v["msg"])
+        r.traces += 1
+        r.sample({"expr": expr, "spellings": True})
         return r
     pools = X.pools(item["seed"])
     i = -1
